@@ -29,7 +29,7 @@ mutant("m09f", "C09", J, "    else {\n      (void)VirtMem::release(virt_mem.rx, 
 mutant("m09g", "C09", "asmjit/core/jitallocator.h", "return _impl->block_size != 0; }", "return _impl->block_size == 0; }", "revert fix: is_initialized() inverted")
 mutant("m09h", "C09", J, "  impl->tree.reset();\n  impl->allocation_count = 0;\n", "  impl->tree.reset();\n", "revert fix: reset() keeps the allocation count")
 mutant("m09i", "C09", J, "      if (area_used() == initial_area_start()) {\n        clear_flags(kFlagDirty);\n        add_flags(kFlagEmpty);\n      }\n", "", "revert fix: incremental release never marks the block empty")
-mutant("m09j", "C09", J, "      _search_end = Support::max(_search_end, released_area_end);\n    }\n    else {", "    }\n    else {", "revert fix: stale search end after releasing the tail of a full block")
+mutant("m09j", "C09", J, "      // If the block was full `_search_end` was zeroed, so make sure the search range covers the released area.\n      _search_end = Support::max(_search_end, released_area_end);\n", "", "revert fix: stale search end after releasing the tail of a full block")
 mutant("m09k", "C09", J, "        block_to_keep->_tree_nodes[0] = 0;\n        block_to_keep->_tree_nodes[1] = 0;\n", "", "revert fix: kept block re-inserted with stale tree links")
 mutant("m09l", "C09", J, "  if (area_diff) {\n    block->mark_shrunk_area(area_start + area_shrunk_size, area_end);\n    span._size = pool->byte_size_from_area_size(area_shrunk_size);\n  }",
        "  if (area_diff) {\n    block->mark_shrunk_area(area_start + area_shrunk_size, area_end);\n    span._size = new_size;\n  }", "shrink reports the requested instead of the granule-rounded size")
@@ -90,7 +90,7 @@ mutant("m04e", "C04", "asmjit/core/codeholder.cpp", "        value += base_addre
 def run(cmd, env=None, timeout=3600):
     e = dict(os.environ); e.update(env or {})
     t0 = time.time()
-    r = subprocess.run(cmd, stdout=subprocess.PIPE, stderr=subprocess.STDOUT, text=True, env=e, timeout=timeout)
+    r = subprocess.run(cmd, stdout=subprocess.PIPE, stderr=subprocess.STDOUT, text=True, errors='replace', env=e, timeout=timeout)
     return r.returncode, r.stdout, time.time() - t0
 
 def main():
